@@ -14,6 +14,7 @@ import Ach.Model.MergeDriver
 import Ach.Model.FlattenDriver
 import Ach.Model.SegmentDriver
 import Ach.Model.ReversalDriver
+import Ach.Model.FileCreateDriver
 /-!
 `achmodel`: the executable model behind the correspondence check.  Reads one
 operation per line on stdin, writes one result line per operation.
@@ -92,6 +93,7 @@ def step (cx : Ctx) (line : String) : String :=
   | "flatten" :: args => Ach.FlattenDriver.run args
   | "segment" :: args => Ach.SegmentDriver.run args
   | "reversal" :: args => Ach.ReversalDriver.run args
+  | "filecreate" :: args => Ach.FileCreate.runLine args
   | ["mask", "number", h] =>
     match hexToStr h with
     | some s => bytesToHex (ByteArray.mk (maskNumber s).toArray)
